@@ -719,9 +719,7 @@ pub fn apply(real: &mut Object, model: &mut RObj<Val>, a: &Act, saw: &mut u8) ->
 }
 
 fn std_hash<T: Hash>(t: &T) -> u64 {
-    let mut h = std::collections::hash_map::DefaultHasher::new();
-    t.hash(&mut h);
-    h.finish()
+    bridge::both_hashes(t)
 }
 
 /// Every observation of the state: entries, all key queries against linear scans, the
